@@ -8,7 +8,7 @@ from ..cfg import NORMAL, Node
 from ..core import Ctx
 from ..flow import ALL, find_path, names_in
 from ..model import AnalysisError, FunctionInfo, dotted, norm_text
-from .common import UNKNOWN, concrete_eval, eval3, edge_target, explore, kwarg, reachable_from
+from .common import UNKNOWN, walk_all, concrete_eval, eval3, edge_target, explore, kwarg, reachable_from
 
 EXPLANATION = (
     "Static analysis of the metadata mutators: (R1) sibling agreement of the three snapshot-removal sites (expire mutator, "
@@ -321,7 +321,7 @@ def r3(ctx: Ctx) -> None:
     t_added, t_exist = edge_target(g, b, "true"), edge_target(g, b, "false")
     join_stop = [n.id for n in g.nodes if n.kind == "branch" and n.id != b.id]
     # role: the per-entry variables are the ones stored under 'snapshot_id' / 'sequence_number' in the entry record
-    dicts0 = [d for d in ast.walk(f.node) if isinstance(d, ast.Dict) and any(isinstance(k, ast.Constant) and k.value == "snapshot_id" for k in d.keys)]
+    dicts0 = [d for d in walk_all(ctx, f) if isinstance(d, ast.Dict) and any(isinstance(k, ast.Constant) and k.value == "snapshot_id" for k in d.keys)]
     entry_vars: Dict[str, str] = {}
     if dicts0:
         for k, v in zip(dicts0[0].keys, dicts0[0].values):
@@ -357,7 +357,7 @@ def r3(ctx: Ctx) -> None:
         "sequence_number" in norm_text(kwarg(avro.ast, "sequence_number"))
     ctx.ob("C15.R3", rm, "reader restores added_snapshot_id and sequence_number", avro, ok, "")
     # the record written carries those two variables
-    dicts = [d for d in ast.walk(f.node) if isinstance(d, ast.Dict)]
+    dicts = [d for d in walk_all(ctx, f) if isinstance(d, ast.Dict)]
     rec = [d for d in dicts if any(isinstance(k, ast.Constant) and k.value == "snapshot_id" for k in d.keys)]
     ok = bool(rec) and len(entry_vars) == 2
     ctx.ob("C15.R3", f, "the entry record stores the per-entry values", None, ok, "'snapshot_id': entry_snapshot_id, 'sequence_number': entry_sequence_number")
@@ -502,8 +502,10 @@ def r8(ctx: Ctx, rid: str = "C15.R8") -> None:
     lname = dotted(larg) if larg is not None else None
     if not lname:
         raise AnalysisError("the manifest list argument is not a variable")
+    # the list may be built under another name inside a helper analysed in place and come back through its return value
+    lnames = {lname} | {nm for nm in sl.origins(larg, lists[0].id)["names"] if "." not in nm}
     appends = [n for n in g.calls() if isinstance(n.ast, ast.Call) and isinstance(n.ast.func, ast.Attribute)
-               and n.ast.func.attr in ("append", "extend") and dotted(n.ast.func.value) == lname]
+               and n.ast.func.attr in ("append", "extend") and dotted(n.ast.func.value) in lnames]
     loops = [l for l in g.nodes if l.kind == "loop" and isinstance(l.ast, ast.For)
              and any(isinstance(c, ast.Call) and (dotted(c.func) or "").endswith("read_manifest_list_file")
                      for c in sl.origins(l.ast.iter, l.id)["calls"])
